@@ -41,7 +41,7 @@ func runC07(t *vs.Tape, cfg map[string]string) (res vs.Result) {
 	tu := &simdisk.Tuning{MemTableSize: 4 << 20, L0CompactionThreshold: 4}
 	bulkDen := 30
 	if cfg["tier"] != "thorough" {
-		bulkDen = 60
+		bulkDen = 110
 	}
 	bulkScript := cfg["bulk"] == "always" || (cfg["bulk"] != "never" && t.Chance("c07.bulkscript", 1, bulkDen))
 	bg := !bulkScript && t.Chance("tune.bg", 1, 5)
@@ -216,6 +216,8 @@ func checkImage(img *simdisk.Disk, cur *storeModel, fl *histOp, where string, c 
 	if err != nil {
 		return vs.Violationf("C07/reopen-failed", "%s: store does not open after crash: %v", where, err)
 	}
+	openSeq := img.Seq() // file-system operations of the recovery itself end here
+	harnessMutated = false
 	closed := false
 	defer func() {
 		if !closed {
@@ -246,6 +248,11 @@ func checkImage(img *simdisk.Disk, cur *storeModel, fl *histOp, where string, c 
 	// Nested crash (depth 2): crash again during / right after this recovery.
 	if (q*7+mi)%5 == 0 {
 		rlog := img.Log()
+		if harnessMutated && openSeq < len(rlog) {
+			// the harness itself deleted / re-added signatures on this image: a second
+			// crash is only placed inside the recovery, not inside those mutations
+			rlog = rlog[:openSeq]
+		}
 		s.Close()
 		closed = true
 		if len(rlog) > 0 {
@@ -275,6 +282,9 @@ func checkImage(img *simdisk.Disk, cur *storeModel, fl *histOp, where string, c 
 	return nil
 }
 
+// harnessMutated is set when checkRecovered changed the store's content itself.
+var harnessMutated bool
+
 // checkRecovered decides which of the admissible models the recovered store
 // shows; returns the matching model.
 func checkRecovered(s *PebbleScanner, cur *storeModel, fl *histOp, where string, c vs.Counters) (*storeModel, *vs.Violation) {
@@ -295,12 +305,38 @@ func checkRecovered(s *PebbleScanner, cur *storeModel, fl *histOp, where string,
 			v.Class = "C07/rebuild-interrupted/" + v.Class
 			return nil, v
 		}
+		// Sometimes the operator mutates the store between the crash and the
+		// re-run (deletes the first signature, adds another): the re-run must still
+		// restore full consistency for whatever records exist then.
+		mm := fl.before
+		if ids := fl.before.ids(); len(ids) > 0 && len(where)%2 == 0 {
+			mm = fl.before.clone()
+			harnessMutated = true
+			if err := s.DeleteSignature(ids[0]); err != nil {
+				return nil, vs.Violationf("C07/rebuild-interrupted/delete-failed", "%s: DeleteSignature(%q) on the recovered store: %v", where, ids[0], err)
+			}
+			delete(mm.sigs, ids[0])
+			extra := detection.Signature{ID: "AFTER-CRASH", Name: "late", TopologyHash: topoHashes()[1], FuzzyHash: fuzzyHashes()[2], EntropyScore: 4.3, EntropyTolerance: 0.1}
+			if err := s.AddSignature(&extra); err != nil {
+				return nil, vs.Violationf("C07/rebuild-interrupted/add-failed", "%s: AddSignature on the recovered store: %v", where, err)
+			}
+			mm.sigs[extra.ID] = extra
+			c.Inc("rebuild_rerun_after_mutations")
+		}
 		if err := s.RebuildIndexes(); err != nil {
 			return nil, vs.Violationf("C07/rebuild-again-failed", "%s: RebuildIndexes after interrupted rebuild: %v", where, err)
 		}
-		if v := checkAll(s, fl.before, scopeFull, false, where+": after running the rebuild again: "); v != nil {
+		if v := checkAll(s, mm, scopeFull, false, where+": after running the rebuild again: "); v != nil {
 			v.Class = "C07/rebuild-again/" + v.Class
 			return nil, v
+		}
+		if mm != fl.before {
+			// put the store back to what the caller's model says
+			s.DeleteSignature("AFTER-CRASH")
+			if old, ok := fl.before.sigs[fl.before.ids()[0]]; ok {
+				o := cloneSig(old)
+				s.AddSignature(&o)
+			}
 		}
 		c.Inc("images_rebuild_inflight_ok")
 		return fl.before, nil
